@@ -67,6 +67,146 @@ def coord_dtype_rules(run, db):
                   % (ast.unparse(bad_casts[0]) if bad_casts else ''), fi_.loc(bad_casts[0]) if bad_casts else fi_.loc())
 
 
+def centre_sites(run, db, rule='C04.centre', only=None):
+    """Centre-index sites: the locals bound by halving a shape equal s//2 of the axis they address.  `only` restricts to
+    functions whose qualified name starts with one of the given prefixes (used by C15 for the OTF products)."""
+    want_site = lambda q: only is None or any(q.startswith(o) for o in only)
+
+    def _halvings(fi):
+        lens_ = _shape_locals(fi)
+        return _halvings_(fi, lens_)
+
+    def _halvings_(fi, lens_):
+        """Assignments that halve a length: the locals they bind are the function's centre indices, whatever they are called."""
+        out = []
+        for n in walk_no_nested(fi.node):
+            if not (isinstance(n, ast.Assign) and len(n.targets) == 1):
+                continue
+            t = n.targets[0]
+            names = [t.id] if isinstance(t, ast.Name) else ([e.id for e in t.elts] if isinstance(t, (ast.Tuple, ast.List)) and all(isinstance(e, ast.Name) for e in t.elts) else None)
+            if not names:
+                continue
+            halves = [b for b in ast.walk(n.value) if isinstance(b, ast.BinOp) and isinstance(b.op, (ast.FloorDiv, ast.Div, ast.RShift))
+                      and isinstance(b.right, ast.Constant) and b.right.value in (1, 2)]
+            srcs = [x for x in ast.walk(n.value) if (isinstance(x, ast.Attribute) and x.attr == 'shape') or (isinstance(x, ast.Name) and (x.id in fi.params or x.id in lens_))]
+            if halves and srcs:
+                out.append((n, names, isinstance(t, ast.Name)))
+        return out
+
+    def _shape_locals(fi):
+        """locals unpacked or copied from a shape (`ny, nx = data.shape`): lengths under another name."""
+        out = set()
+        for n in walk_no_nested(fi.node):
+            if isinstance(n, ast.Assign) and any((isinstance(x, ast.Attribute) and x.attr == 'shape') or (isinstance(x, ast.Name) and x.id in fi.params and 'shape' in x.id)
+                                                 for x in ast.walk(n.value)) \
+                    and not any(isinstance(b, ast.BinOp) for b in ast.walk(n.value)):
+                out |= {x.id for t in n.targets for x in ast.walk(t) if isinstance(x, ast.Name)}
+        return out
+
+    def _use_axis(fi, name):
+        """the array axis a centre index addresses, read off the subscripts it appears in: X[a, b] -> a is axis 0, b axis 1; X[a] -> axis 0."""
+        axes_ = set()
+        for n in walk_no_nested(fi.node):
+            if isinstance(n, ast.Subscript):
+                sl = n.slice
+                elts = sl.elts if isinstance(sl, ast.Tuple) else [sl]
+                for k, e in enumerate(elts):
+                    if any(isinstance(x, ast.Name) and x.id == name for x in ast.walk(e)) and not isinstance(e, ast.Slice):
+                        axes_.add(k)
+        return axes_
+
+    def centre_site(qual, ctx, lens, axes, select=None, what=None):
+        if not want_site(qual):
+            return
+        """the locals bound by halving a shape must equal s//2 of the lengths named in axes (by position when unpacked)."""
+        fi = db.func(qual)
+        cands = _halvings(fi)
+        if not cands:
+            raise AnalysisError('centre site %s: no assignment halving a shape found' % qual)
+        n_inst = 0
+        for par in parity_classes(lens):
+            it, dom = mk(db, par)
+            res = it.run(fi, kwargs=lambda: ctx(dom), self_obj=(lambda: select(dom)) if select else None)
+            for node, names, whole in cands:
+                for k, var in enumerate(names):
+                    ax = axes if whole else [axes[k]] if k < len(axes) else None
+                    used = _use_axis(fi, var)
+                    if not whole and len(used) == 1 and max(used) < len(axes):
+                        ax = [axes[max(used)]]      # the subscript position decides which axis this index addresses
+                    if ax is None:
+                        raise AnalysisError('centre site %s: %s binds more names than the array has axes' % (qual, norm_stmt(node)))
+                    seen = set()
+                    for p, v in var_on_paths(res, var):
+                        items = v.items if isinstance(v, Tup) else [v]
+                        key = tuple(sh(dom, x) for x in items)
+                        if key in seen:
+                            continue
+                        seen.add(key)
+                        if any(dom.rat(x) is None for x in items):
+                            raise AnalysisError('%s: value %r of `%s` is outside the INDEX fragment on path %s' % (qual, v, norm_stmt(node), p.conds))
+                        axk = ax
+                        if whole and not isinstance(v, Tup) and len(ax) > 1:
+                            # one scalar centre bound on its own: which axis it addresses is decided by where it is used
+                            axk = [axes[max(used)]] if len(used) == 1 and max(used) < len(axes) else \
+                                next(([a] for a in ax if eq(dom, v, half(dom, dom.length(a)))), ax[:1])
+                        want = [half(dom, dom.length(a)) for a in axk]
+                        ok = len(items) == len(want) and all(eq(dom, x, w) for x, w in zip(items, want))
+                        n_inst += 1
+                        run.check(ok, rule, fi.qual, 'centre index #%d of `%s`' % (k, norm_stmt(node)),
+                                  'index == %s//2 [%s]' % ('/'.join(axk), ptxt(par)),
+                                  '%s = (%s) but the origin index is (%s) for %s' % (what or 'centre index', ', '.join(key), ', '.join(sh(dom, w) for w in want), ptxt(par)),
+                                  fi.loc(node))
+        if n_inst == 0:
+            raise AnalysisError('centre site %s: no centre index bound on any analysed path' % qual)
+
+    centre_site('prysm.psf.centroid', lambda d: {'data': d.array('data', 'r', 'c'), 'dx': d.sym('dx'), 'unit': Const('spatial')},
+                ['r', 'c'], ['r', 'c'], what='centroid reference index')
+    for nm in ('mtf_from_psf', 'ptf_from_psf', 'otf_from_psf'):
+        centre_site('prysm.otf.' + nm, lambda d: {'psf': d.array('psf', 'r', 'c'), 'dx': d.sym('dx')}, ['r', 'c'], ['r', 'c'], what='DC index')
+    centre_site('prysm.interferogram.bandlimited_rms',
+                lambda d: {'r': d.array('r', 'r', 'c'), 'psd': d.array('psd', 'r', 'c'), 'wllow': Const(None), 'wlhigh': Const(None),
+                           'flow': d.sym('flow'), 'fhigh': d.sym('fhigh')}, ['r', 'c'], ['r', 'c'])
+    centre_site('prysm.interferogram.render_synthetic_surface',
+                lambda d: {'size': d.sym('size'), 'samples': d.length('n'), 'rms': Const(None), 'mask': Const(None)}, ['n'], ['n'])
+    centre_site('prysm.x.dm.prepare_actuator_lattice', lambda d: {'shape': Tup([d.length('r'), d.length('c')]), 'Nact': Tup([d.integer('Na0'), d.integer('Na1')]), 'sep': Tup([d.integer('s0'), d.integer('s1')]), 'dx': d.sym('dx')},
+                ['r', 'c'], ['r', 'c'])
+
+    # the lattice slices handed out under 'iyy' / 'ixx' address rows / columns: their start is the row / column centre plus an
+    # offset that does not involve the array size
+    fi = db.func('prysm.x.dm.prepare_actuator_lattice')
+    n_sl = 0
+    for par in (parity_classes(['r', 'c']) if want_site(fi.qual) else []):
+        it, dom = mk(db, par)
+        res = it.run(fi, kwargs=lambda: {'shape': Tup([dom.length('r'), dom.length('c')]), 'Nact': Tup([dom.integer('Na0'), dom.integer('Na1')]),
+                                         'sep': Tup([dom.integer('s0'), dom.integer('s1')]), 'dtype': dom.sym('dtype')})
+        size_atoms = dom.rat(dom.length('r')).atoms() | dom.rat(dom.length('c')).atoms()
+        for p in res:
+            if p.outcome != 'return' or not hasattr(p.value, 'entries'):
+                continue
+            for key, axn in (('iyy', 'r'), ('ixx', 'c')):
+                sl = p.value.get(Const(key))
+                if not isinstance(sl, Slice) or dom.rat(sl.lo) is None:
+                    raise AnalysisError('prepare_actuator_lattice: the %s entry is not a slice with an INDEX start' % key)
+                off = dom.rat(sl.lo) - dom.rat(half(dom, dom.length(axn)))
+                n_sl += 1
+                run.check(not (off.atoms() & size_atoms), rule, fi.qual, "lattice slice '%s'" % key,
+                          "start of '%s' == %s//2 + size-independent offset [%s]" % (key, axn, ptxt(par)),
+                          "the '%s' slice starts at %s, which is not the centre of axis %s plus a size-independent offset for %s" % (key, sh(dom, sl.lo), axn, ptxt(par)),
+                          fi.loc())
+    if n_sl == 0 and want_site(fi.qual):
+        raise AnalysisError('prepare_actuator_lattice: no returned lattice analysed')
+
+    # Interferogram.recenter: c == shape//2 (self.shape is data.shape)
+    ci = db.cls('prysm.interferogram.Interferogram')
+
+    def mkself(d):
+        o = Obj(ci)
+        o.attrs.update({'data': d.array('data', 'r', 'c'), 'dx': d.sym('dx'), '_x': Shaped(Tup([d.length('r'), d.length('c')]), 'x'),
+                        '_y': Shaped(Tup([d.length('r'), d.length('c')]), 'y'), '_r': Const(None), '_t': Const(None)})
+        return o
+    centre_site('prysm.interferogram.Interferogram.recenter', lambda d: {}, ['r', 'c'], ['r', 'c'], select=mkself)
+
+
 def check(run, db, tier):
     run.trust('INDEX domain: lengths n=2a+p, //2 / ceil(./2) / floor(./2) exact on integer-affine forms per parity class (sa/domains/index.py)',
               'origin convention: the origin of an axis of length n is index n//2 (prysm/fttools.py fftrange docstring and property C04)')
@@ -202,138 +342,7 @@ def check(run, db, tier):
     ok = bool(res) and all(any(e['kind'] == 'subscript' and isinstance(e['index'], Tup) and len(e['index'].items) == 2 for e in p.events) for p in res)
     run.check(ok, 'C04.crop', f.qual, 'scalar out_shape', 'an int out_shape is broadcast to both axes', 'int out_shape is not applied to both axes', f.loc())
 
-    # ---- centre indices --------------------------------------------------
-    def _halvings(fi):
-        lens_ = _shape_locals(fi)
-        return _halvings_(fi, lens_)
-
-    def _halvings_(fi, lens_):
-        """Assignments that halve a length: the locals they bind are the function's centre indices, whatever they are called."""
-        out = []
-        for n in walk_no_nested(fi.node):
-            if not (isinstance(n, ast.Assign) and len(n.targets) == 1):
-                continue
-            t = n.targets[0]
-            names = [t.id] if isinstance(t, ast.Name) else ([e.id for e in t.elts] if isinstance(t, (ast.Tuple, ast.List)) and all(isinstance(e, ast.Name) for e in t.elts) else None)
-            if not names:
-                continue
-            halves = [b for b in ast.walk(n.value) if isinstance(b, ast.BinOp) and isinstance(b.op, (ast.FloorDiv, ast.Div, ast.RShift))
-                      and isinstance(b.right, ast.Constant) and b.right.value in (1, 2)]
-            srcs = [x for x in ast.walk(n.value) if (isinstance(x, ast.Attribute) and x.attr == 'shape') or (isinstance(x, ast.Name) and (x.id in fi.params or x.id in lens_))]
-            if halves and srcs:
-                out.append((n, names, isinstance(t, ast.Name)))
-        return out
-
-    def _shape_locals(fi):
-        """locals unpacked or copied from a shape (`ny, nx = data.shape`): lengths under another name."""
-        out = set()
-        for n in walk_no_nested(fi.node):
-            if isinstance(n, ast.Assign) and any((isinstance(x, ast.Attribute) and x.attr == 'shape') or (isinstance(x, ast.Name) and x.id in fi.params and 'shape' in x.id)
-                                                 for x in ast.walk(n.value)) \
-                    and not any(isinstance(b, ast.BinOp) for b in ast.walk(n.value)):
-                out |= {x.id for t in n.targets for x in ast.walk(t) if isinstance(x, ast.Name)}
-        return out
-
-    def _use_axis(fi, name):
-        """the array axis a centre index addresses, read off the subscripts it appears in: X[a, b] -> a is axis 0, b axis 1; X[a] -> axis 0."""
-        axes_ = set()
-        for n in walk_no_nested(fi.node):
-            if isinstance(n, ast.Subscript):
-                sl = n.slice
-                elts = sl.elts if isinstance(sl, ast.Tuple) else [sl]
-                for k, e in enumerate(elts):
-                    if any(isinstance(x, ast.Name) and x.id == name for x in ast.walk(e)) and not isinstance(e, ast.Slice):
-                        axes_.add(k)
-        return axes_
-
-    def centre_site(qual, ctx, lens, axes, rule='C04.centre', select=None, what=None):
-        """the locals bound by halving a shape must equal s//2 of the lengths named in axes (by position when unpacked)."""
-        fi = db.func(qual)
-        cands = _halvings(fi)
-        if not cands:
-            raise AnalysisError('centre site %s: no assignment halving a shape found' % qual)
-        n_inst = 0
-        for par in parity_classes(lens):
-            it, dom = mk(db, par)
-            res = it.run(fi, kwargs=lambda: ctx(dom), self_obj=(lambda: select(dom)) if select else None)
-            for node, names, whole in cands:
-                for k, var in enumerate(names):
-                    ax = axes if whole else [axes[k]] if k < len(axes) else None
-                    used = _use_axis(fi, var)
-                    if not whole and len(used) == 1 and max(used) < len(axes):
-                        ax = [axes[max(used)]]      # the subscript position decides which axis this index addresses
-                    if ax is None:
-                        raise AnalysisError('centre site %s: %s binds more names than the array has axes' % (qual, norm_stmt(node)))
-                    seen = set()
-                    for p, v in var_on_paths(res, var):
-                        items = v.items if isinstance(v, Tup) else [v]
-                        key = tuple(sh(dom, x) for x in items)
-                        if key in seen:
-                            continue
-                        seen.add(key)
-                        if any(dom.rat(x) is None for x in items):
-                            raise AnalysisError('%s: value %r of `%s` is outside the INDEX fragment on path %s' % (qual, v, norm_stmt(node), p.conds))
-                        axk = ax
-                        if whole and not isinstance(v, Tup) and len(ax) > 1:
-                            # one scalar centre bound on its own: which axis it addresses is decided by where it is used
-                            axk = [axes[max(used)]] if len(used) == 1 and max(used) < len(axes) else \
-                                next(([a] for a in ax if eq(dom, v, half(dom, dom.length(a)))), ax[:1])
-                        want = [half(dom, dom.length(a)) for a in axk]
-                        ok = len(items) == len(want) and all(eq(dom, x, w) for x, w in zip(items, want))
-                        n_inst += 1
-                        run.check(ok, rule, fi.qual, 'centre index #%d of `%s`' % (k, norm_stmt(node)),
-                                  'index == %s//2 [%s]' % ('/'.join(axk), ptxt(par)),
-                                  '%s = (%s) but the origin index is (%s) for %s' % (what or 'centre index', ', '.join(key), ', '.join(sh(dom, w) for w in want), ptxt(par)),
-                                  fi.loc(node))
-        if n_inst == 0:
-            raise AnalysisError('centre site %s: no centre index bound on any analysed path' % qual)
-
-    centre_site('prysm.psf.centroid', lambda d: {'data': d.array('data', 'r', 'c'), 'dx': d.sym('dx'), 'unit': Const('spatial')},
-                ['r', 'c'], ['r', 'c'], what='centroid reference index')
-    for nm in ('mtf_from_psf', 'ptf_from_psf', 'otf_from_psf'):
-        centre_site('prysm.otf.' + nm, lambda d: {'psf': d.array('psf', 'r', 'c'), 'dx': d.sym('dx')}, ['r', 'c'], ['r', 'c'], what='DC index')
-    centre_site('prysm.interferogram.bandlimited_rms',
-                lambda d: {'r': d.array('r', 'r', 'c'), 'psd': d.array('psd', 'r', 'c'), 'wllow': Const(None), 'wlhigh': Const(None),
-                           'flow': d.sym('flow'), 'fhigh': d.sym('fhigh')}, ['r', 'c'], ['r', 'c'])
-    centre_site('prysm.interferogram.render_synthetic_surface',
-                lambda d: {'size': d.sym('size'), 'samples': d.length('n'), 'rms': Const(None), 'mask': Const(None)}, ['n'], ['n'])
-    centre_site('prysm.x.dm.prepare_actuator_lattice', lambda d: {'shape': Tup([d.length('r'), d.length('c')]), 'Nact': Tup([d.integer('Na0'), d.integer('Na1')]), 'sep': Tup([d.integer('s0'), d.integer('s1')]), 'dx': d.sym('dx')},
-                ['r', 'c'], ['r', 'c'])
-
-    # the lattice slices handed out under 'iyy' / 'ixx' address rows / columns: their start is the row / column centre plus an
-    # offset that does not involve the array size
-    fi = db.func('prysm.x.dm.prepare_actuator_lattice')
-    n_sl = 0
-    for par in parity_classes(['r', 'c']):
-        it, dom = mk(db, par)
-        res = it.run(fi, kwargs=lambda: {'shape': Tup([dom.length('r'), dom.length('c')]), 'Nact': Tup([dom.integer('Na0'), dom.integer('Na1')]),
-                                         'sep': Tup([dom.integer('s0'), dom.integer('s1')]), 'dtype': dom.sym('dtype')})
-        size_atoms = dom.rat(dom.length('r')).atoms() | dom.rat(dom.length('c')).atoms()
-        for p in res:
-            if p.outcome != 'return' or not hasattr(p.value, 'entries'):
-                continue
-            for key, axn in (('iyy', 'r'), ('ixx', 'c')):
-                sl = p.value.get(Const(key))
-                if not isinstance(sl, Slice) or dom.rat(sl.lo) is None:
-                    raise AnalysisError('prepare_actuator_lattice: the %s entry is not a slice with an INDEX start' % key)
-                off = dom.rat(sl.lo) - dom.rat(half(dom, dom.length(axn)))
-                n_sl += 1
-                run.check(not (off.atoms() & size_atoms), 'C04.centre', fi.qual, "lattice slice '%s'" % key,
-                          "start of '%s' == %s//2 + size-independent offset [%s]" % (key, axn, ptxt(par)),
-                          "the '%s' slice starts at %s, which is not the centre of axis %s plus a size-independent offset for %s" % (key, sh(dom, sl.lo), axn, ptxt(par)),
-                          fi.loc())
-    if n_sl == 0:
-        raise AnalysisError('prepare_actuator_lattice: no returned lattice analysed')
-
-    # Interferogram.recenter: c == shape//2 (self.shape is data.shape)
-    ci = db.cls('prysm.interferogram.Interferogram')
-
-    def mkself(d):
-        o = Obj(ci)
-        o.attrs.update({'data': d.array('data', 'r', 'c'), 'dx': d.sym('dx'), '_x': Shaped(Tup([d.length('r'), d.length('c')]), 'x'),
-                        '_y': Shaped(Tup([d.length('r'), d.length('c')]), 'y'), '_r': Const(None), '_t': Const(None)})
-        return o
-    centre_site('prysm.interferogram.Interferogram.recenter', lambda d: {}, ['r', 'c'], ['r', 'c'], select=mkself)
+    centre_sites(run, db)
 
     # hann2d: window coordinates are arange(N) - N//2
     f = db.func('prysm.interferogram.hann2d')
